@@ -5,7 +5,7 @@ from .. import common, gen, pool, pipefam, readerfam
 RULE = ("histories of loads of the same result files through DensityData(...), verify_h5_cache and the two directory-level constructors: "
         "exhaustive sequences up to length 3 (quick: 2) over the four constructors x strand mixtures, plus histories whose first load is "
         "killed (forked child, os._exit) before the copy / mid-copy / after the copy / after j exchanged genes / before publishing, with "
-        "and without an HDF5 flush, or interrupted by an exception (Ctrl-C) at the j-th gene of the swap loop, followed by 1-2 loads; every completed load is compared column by column with the raw file and with "
+        "and without an HDF5 flush, or interrupted by an exception (Ctrl-C) at the j-th gene of the swap loop, followed by 1-2 loads; plus two loads of two different files of one directory interleaved (4 orders of their copy / publish steps) followed by loads of both; every completed load is compared column by column with the raw file and with "
         "the model; non-trivial = history with >= 2 loads or a crash, and a minus-strand gene; distinct = (case, history)")
 HOWS = ["ctor", "verify", "dir", "regex"]
 COQ_HOW = {"ctor": "ByCtor", "verify": "ByVerify", "dir": "ByVerify", "regex": "ByCtor"}
@@ -104,6 +104,36 @@ def run(chk):
                 chk.violation("a later load served raw / twice-exchanged / partial values (or the raw file changed)",
                               {"case": {k: c[k] for k in ("genes", "tes", "windows")}, "history": steps, "failures": fails[:6]})
     chk.oblige("correspondence model = implementation (values served by every completed load)", ndiff == 0, json.dumps(first)[:2500] if first else "")
+    # two loads of two DIFFERENT result files of one directory, interleaved at the points where each makes its copy and
+    # publishes it: afterwards every file must still serve its own chromosome's view (or raise)
+    ORDERS = [[[0, "copied"], [0, "publish"], [1, "copied"], [1, "publish"]], [[0, "copied"], [1, "copied"], [0, "publish"], [1, "publish"]],
+              [[0, "copied"], [1, "copied"], [1, "publish"], [0, "publish"]], [[1, "copied"], [0, "copied"], [0, "publish"], [1, "publish"]]]
+    isessions = []
+    for i in range(1 if chk.tier == "quick" else 4):
+        c2 = readerfam.strand_case(r, "mixed", max_chrom=2, min_chrom=2)
+        chs = sorted(set(g["chrom"] for g in c2["genes"]))
+        for o in ORDERS:
+            isessions.append((c2, [{"interleave": chs[:2], "order": o}, {"how": "dir"}, {"how": "ctor"}]))
+    ireps = pool.run_requests([{"op": "reader.session", "case": c2, "steps": st} for c2, st in isessions], timeout=300)
+    for (c2, st), rep in zip(isessions, ireps):
+        chk.case_seen([c2["genes"], st], True)
+        chk.count("interleaved_loads_of_two_files")
+        fails = []
+        if not rep.get("ok"):
+            fails.append({"kind": "session_failed", "exc": rep.get("exc"), "msg": rep.get("msg")})
+        else:
+            for s_, so in zip(st[1:], rep["steps"][1:]):
+                if so.get("error"):
+                    continue            # an explicit error after interleaved loads is allowed
+                for f_ in readerfam.view_failures(c2, so["loaded"]):
+                    f_["how"] = s_["how"]; f_["interleaved_outcomes"] = rep["steps"][0]["outcomes"]
+                    fails.append(f_)
+            if not rep["raw_unchanged"]:
+                fails.append({"kind": "raw_result_file_modified"})
+        if fails:
+            nv += 1
+            chk.violation("after two interleaved loads of different result files a load served another file's / partial values",
+                          {"case": {k: c2[k] for k in ("genes", "tes", "windows")}, "history": st, "failures": fails[:6]})
     chk.sample({"genes": [(g["name"], g["strand"]) for g in sessions[0][0]["genes"]], "history": sessions[0][1]})
     chk.sample({"history": sessions[-1][1]})
     return chk.finish(rule=RULE)
@@ -116,7 +146,7 @@ def replay(chk, rp):
         fails.append({"kind": "session_failed", "msg": rep.get("msg")})
     else:
         for s, so in zip(rp["history"], rep["steps"]):
-            if s.get("crash") is None and not so.get("error"):
+            if s.get("crash") is None and s.get("interleave") is None and not so.get("error"):
                 fails += readerfam.view_failures(rp["case"], so["loaded"])
         if not rep["raw_unchanged"]:
             fails.append({"kind": "raw_result_file_modified"})
